@@ -479,6 +479,7 @@ class ParallelReplay:
         self.batch = []
         self.pending = []
         self.n = 0
+        self.batch_timeout = 3600
 
     def push(self, row):
         self.batch.append(row)
@@ -493,7 +494,7 @@ class ParallelReplay:
                 self._collect(self.pending.pop(0))
 
     def _collect(self, ar):
-        r = ar.get(timeout=3600)
+        r = ar.get(timeout=self.batch_timeout)
         self.n += r.get('n', 0)
         self.ctx.replayed += r.get('n', 0)
         for key, case, msg in r.get('viol', []):
